@@ -51,7 +51,7 @@ def evVerdict (env : PEnv) (orc : EvalOracles) (ms : MsgSt) : Tri × St → Verd
 
 /-- The evaluation of the rules on a parsed message, as `processMessage` runs it. -/
 def evalMs (env : PEnv) (orc : EvalOracles) (expr : Expr) (ms : MsgSt) : Prog (Tri × St) :=
-  evalP (msgEnv env orc ms.path) orc.timeFormat expr ms.msg ms.flags
+  evalP (msgEnv env orc ms.path) expr ms.msg ms.flags
 
 /-- The verdict on a parsed message when evaluation asks nothing (or every question fails): the pure `Model.eval`. -/
 def msVerdict (env : PEnv) (orc : EvalOracles) (expr : Expr) (ms : MsgSt) : Verdict :=
@@ -59,7 +59,7 @@ def msVerdict (env : PEnv) (orc : EvalOracles) (expr : Expr) (ms : MsgSt) : Verd
 
 /-- The verdict on a parsed message for the answers `as` of the operating system. -/
 def msVerdictA (env : PEnv) (orc : EvalOracles) (expr : Expr) (ms : MsgSt) (as : List SysAns) : Verdict :=
-  evVerdict env orc ms (evalR (msgEnv env orc ms.path) orc.timeFormat expr ms.msg ms.flags as).1
+  evVerdict env orc ms (evalR (msgEnv env orc ms.path) expr ms.msg ms.flags as).1
 
 /-- The file `name` of directory `dir` with content `content` as `message_parse` returns it (without descriptor). -/
 def fileMs (dir name content : Bytes) : Option MsgSt :=
@@ -134,7 +134,7 @@ theorem processMessage_eq (env : PEnv) (orc : EvalOracles) (expr : Expr) (md : M
   | none => rfl
   | some ms =>
     simp only [afterParse, evalMs, msgEnv]
-    show (evalP _ _ _ _ _).bind _ = _
+    show (evalP _ _ _ _).bind _ = _
     congr 1
     funext r
     obtain ⟨t, est⟩ := r
@@ -251,7 +251,7 @@ theorem evalMs_asksFree (env : PEnv) (orc : EvalOracles) (expr : Expr) (h : asks
     evalMs env orc expr ms = .ret (eval (msgEnv env orc ms.path) ms.msg expr 0 ms.msg { ml := [], flags := ms.flags }) := by
   unfold evalMs
   rw [← noSys_msgEnv]
-  exact evalP_asksFree (msgEnv env orc ms.path) orc.timeFormat expr h ms.msg ms.flags
+  exact evalP_asksFree (msgEnv env orc ms.path) expr h ms.msg ms.flags
 
 theorem afterParse_asksFree (env : PEnv) (orc : EvalOracles) (expr : Expr) (h : asksFree expr = true) (md : Maildir)
     (name : Bytes) (st : MainSt) (ms : MsgSt) :
@@ -273,7 +273,7 @@ theorem verdictA_asksFree (env : PEnv) (orc : EvalOracles) (expr : Expr) (h : as
   cases fileMs dir name content with
   | none => rfl
   | some ms =>
-    have h1 := evalT_asksFree (msgEnv env orc ms.path) orc.timeFormat ms.msg expr h 0 ms.msg { ml := [], flags := ms.flags }
+    have h1 := evalT_asksFree (msgEnv env orc ms.path) ms.msg expr h 0 ms.msg { ml := [], flags := ms.flags }
     simp only [msVerdictA, msVerdict, evalR, evalTop]
     rw [← noSys_msgEnv, h1]
     rfl
@@ -281,7 +281,7 @@ theorem verdictA_asksFree (env : PEnv) (orc : EvalOracles) (expr : Expr) (h : as
 /-- The calls of the evaluation of the rule tree `expr`, whatever the message. -/
 theorem evalMs_calls (env : PEnv) (orc : EvalOracles) (expr : Expr) (ms : MsgSt) :
     Calls (EvalCallOf expr) (evalMs env orc expr ms) :=
-  evalP_calls_of _ _ _ _ _
+  evalP_calls_of _ _ _ _
 
 /-! ## no action: only the descriptor is closed -/
 
@@ -425,7 +425,7 @@ theorem verdictAt_of_parts (env : PEnv) (orc : EvalOracles) (expr : Expr) (dir n
     (hp : pathjoin PATH_MAX dir name = some p) (hn : strlcpyFits NAME_MAX1 name = some n) (hmf : flagsParse n = some mf)
     (orcl : Nat → Call → Res) (j : Nat) :
     verdictAt env orc expr dir name content orcl j =
-      match (runO orcl (evalP (msgEnv env orc p) orc.timeFormat expr (parseMessage content) mf) j).1 with
+      match (runO orcl (evalP (msgEnv env orc p) expr (parseMessage content) mf) j).1 with
       | (.error, _) => .error
       | (.nomatch, _) => .nomatch
       | (.match, est) =>
@@ -435,7 +435,7 @@ theorem verdictAt_of_parts (env : PEnv) (orc : EvalOracles) (expr : Expr) (dir n
         | some (ml, msgs) => .act ml msgs est.flags := by
   unfold verdictAt fileMs
   simp only [hp, hn, hmf, evalMs]
-  generalize (runO orcl (evalP (msgEnv env orc p) orc.timeFormat expr (parseMessage content) mf) j).1 = r
+  generalize (runO orcl (evalP (msgEnv env orc p) expr (parseMessage content) mf) j).1 = r
   obtain ⟨t, est⟩ := r
   cases t <;> rfl
 
@@ -447,7 +447,7 @@ theorem processMessage_noMatch_run (env : PEnv) (orc : EvalOracles) (expr : Expr
     (hp : pathjoin PATH_MAX md.path name = some p) (hn : strlcpyFits NAME_MAX1 name = some n)
     (hmf : flagsParse n = some mf)
     (orcl : Nat → Call → Res) (ev : Tri × St)
-    (hev : (runO orcl (evalP (msgEnv env orc p) orc.timeFormat expr (parseMessage content) mf)
+    (hev : (runO orcl (evalP (msgEnv env orc p) expr (parseMessage content) mf)
       (runO orcl (messageParseP d md.path name content) 0).2.2).1 = ev)
     (hno : ev.1 = .nomatch ∨ ev.1 = .error ∨
       (ev.1 = .match ∧ (matchesInterpolate (msgEnv env orc p) ev.2.ml
@@ -507,10 +507,10 @@ theorem processMessage_noMatch_run_pure (env : PEnv) (orc : EvalOracles) (expr :
       (if (runOracle orcl (messageParseP d md.path name content) 0 []).1.isNone ||
           (eval (msgEnv env orc p) (parseMessage content) expr 0 (parseMessage content) { ml := [], flags := mf }).1 != .nomatch
         then { st with error := true } else st, md) := by
-  have hev : (Own.runO orcl (evalP (msgEnv env orc p) orc.timeFormat expr (parseMessage content) mf)
+  have hev : (Own.runO orcl (evalP (msgEnv env orc p) expr (parseMessage content) mf)
       (Own.runO orcl (messageParseP d md.path name content) 0).2.2).1 =
       eval (msgEnv env orc p) (parseMessage content) expr 0 (parseMessage content) { ml := [], flags := mf } := by
-    rw [← noSys_msgEnv, evalP_asksFree (msgEnv env orc p) orc.timeFormat expr hfree]
+    rw [← noSys_msgEnv, evalP_asksFree (msgEnv env orc p) expr hfree]
     rfl
   obtain ⟨h1, ⟨E, L, h2, hE, hL⟩, h3⟩ :=
     processMessage_noMatch_run env orc expr md name st d content p n mf hd hf hp hn hmf orcl _ hev hno
